@@ -36,6 +36,7 @@ def main(tier):
     chk.run("R-IFACE", C.iface, cx.cpp, cx.templates, floor=80)
     chk.run("R-GUARDDEPS", C.guarddeps, cx.cpp, floor=2)
     chk.run("R-INTTEXT", C.inttext, cx.cpp, floor=25)
+    chk.run("R-DIGITSEEN", C.digitseen, cx.cpp, floor=3)
     chk.run("R-LOWESTDIGIT", C.lowestdigit, cx.cpp, floor=12)
     chk.run("R-ENUMTEXT", C.enumtext, cx.cpp, floor=3)
     chk.run("R-ARRAYSEP", C.arraysep, cx.cpp, floor=3)
